@@ -251,7 +251,10 @@ def ops(s, L):
     if n:
         yield ('delr', n - 1)
         yield ('del', n)  # out of range
-        yield ('del', -1)
+        # negative indexes count from the end (Python list rules): every rule is addressed that way too
+        for i in range(1, n + 1):
+            yield ('del', -i)
+        yield ('del', -n - 1)  # out of range
     for k in range(len(SHEET_TEXTS)):
         yield ('text', k)
     for i in range(n):
